@@ -253,6 +253,23 @@ impl<'a> Gen<'a> {
                 let l = (*self.rng.pick(&cands)).to_string();
                 if self.rng.chance(1, 2) { lam(&[&p], bin("+", id(&p), id(&l))) } else { lam(&[&p], E::List(vec![id(&p), id(&l)])) }
             }
+            9 | 10 => {
+                // the rest list (or the optional parameter) itself escapes the call: returned as
+                // is, inside a record, or captured by a returned closure - it is an ordinary
+                // value that outlives the call and must not change when the function is called again
+                let r = (*self.rng.pick(&["rest", "more", "xs"])).to_string();
+                let body = match self.rng.below(4) {
+                    0 => id(&r),
+                    1 => E::Rec(vec![RK::Static("r".into(), id(&r)), RK::Static("p".into(), id(&p))]),
+                    2 => E::Lam(vec![], Box::new(id(&r))),
+                    _ => E::List(vec![id(&r), id(&p)]),
+                };
+                if self.rng.chance(1, 3) {
+                    E::Lam(vec![Arg::Opt(p.clone()), Arg::Rest(r)], Box::new(body))
+                } else {
+                    E::Lam(vec![Arg::Req(p.clone()), Arg::Rest(r)], Box::new(body))
+                }
+            }
             _ => lam(&[&p], bin("+", id(&p), num(1))),
         }
     }
@@ -280,11 +297,22 @@ impl<'a> Gen<'a> {
         ];
         let k = self.rng.pick_weighted(&w);
         match k {
-            0 if self.rng.chance(1, 5) && self.bound_of(&[Ty::Fun]).is_some() => {
+            0 if self.rng.chance(1, 3) && self.bound_of(&[Ty::Fun]).is_some() => {
                 let n = self.free_name().unwrap_or_else(|| self.any_name());
                 let f = self.bound_of(&[Ty::Fun]).unwrap();
                 self.bound.entry(n.clone()).or_insert(Ty::Fun);
-                (Stmt::Expr(assign(&n, call(id(&f), vec![self.small_num()]))), "bind-call-result")
+                let mut args = vec![self.small_num()];
+                // sometimes more arguments than parameters are likely to be required (rest
+                // parameters collect them), sometimes spread from a list literal
+                if self.rng.chance(1, 2) {
+                    for _ in 0..self.rng.range(1, 3) {
+                        args.push(self.small_num());
+                    }
+                    if self.rng.chance(1, 4) {
+                        args = vec![args[0].clone(), E::Spread(Box::new(E::List(args[1..].to_vec())))];
+                    }
+                }
+                (Stmt::Expr(assign(&n, call(id(&f), args))), "bind-call-result")
             }
             0 => {
                 let n = self.free_name().unwrap_or_else(|| self.any_name());
@@ -2117,6 +2145,44 @@ pub fn fixed_corpus() -> Vec<(String, Scenario)> {
             ]),
         ),
     ];
+    // per-call storage that escapes: the rest list / an argument returned as is, inside a record,
+    // or captured by a returned closure, from a function that is then called again directly
+    v.push((
+        "escaping-call-storage".to_string(),
+        mk(vec![
+            (Stmt::Expr(assign("f", E::Lam(vec![Arg::Rest("xs".into())], Box::new(id("xs"))))), "bind-lambda"),
+            (Stmt::Expr(assign("a", call(id("f"), vec![num(1), num(2), num(3)]))), "bind-call-result"),
+            (Stmt::Expr(assign("b", call(id("f"), vec![num(4), num(5)]))), "bind-call-result"),
+            (
+                Stmt::Expr(assign(
+                    "g",
+                    E::Lam(
+                        vec![Arg::Opt("x".into()), Arg::Rest("more".into())],
+                        Box::new(E::Rec(vec![
+                            RK::Static("r".into(), id("more")),
+                            RK::Static("p".into(), id("x")),
+                            RK::Static("k".into(), E::Lam(vec![], Box::new(id("more")))),
+                        ])),
+                    ),
+                )),
+                "bind-lambda",
+            ),
+            (Stmt::Expr(assign("c", call(id("g"), vec![num(1), num(10), num(20)]))), "bind-call-result"),
+            (Stmt::Expr(assign("d", call(id("g"), vec![]))), "bind-call-result"),
+            (
+                Stmt::Expr(assign(
+                    "r",
+                    E::List(vec![
+                        call(id("f"), vec![E::Spread(Box::new(E::List(vec![num(7), num(8)])))]),
+                        dot(call(id("g"), vec![E::Spread(Box::new(E::List(vec![num(9)])))]), "r"),
+                        call(dot(id("c"), "k"), vec![]),
+                    ]),
+                )),
+                "bind-call-result",
+            ),
+            (Stmt::Expr(assign("s", call(id("map"), vec![E::List(vec![num(1), num(2)]), lam(&["x"], call(id("f"), vec![id("x"), id("x")]))]))), "bind-call-result"),
+        ]),
+    ));
     v.push(("reserved-sweep".to_string(), reserved_sweep()));
     let dir = format!("{}/regressions", verif_dir());
     if let Ok(rd) = std::fs::read_dir(&dir) {
